@@ -145,7 +145,7 @@ def run_model(run, name, spec, cfg_text, workers=None, heap="6g", timeout=3000, 
     run.model["states"] += states
     run.model["transitions"] += trans
     if expect_ok and rc != 0:
-        tail = "\n".join(out.splitlines()[-60:])
+        tail = "\n".join([l[:400] for l in out.splitlines() if not l.startswith('"CASE|')][-60:])
         raise Infra("model run %s (%s) did not complete cleanly (rc=%d): a counterexample on the MODEL is not a verdict "
                     "about the code; the model or its bound must be corrected.\n%s" % (name, spec, rc, tail))
     return out
@@ -265,6 +265,24 @@ def extract_history(trace_path, line):
     return lines[start:i + 1]
 
 
+def model_case(run, label):
+    """The TLC-emitted case behind a case label <prop>-case-<k>, if any."""
+    m = re.match(r"^(C\d+)-case-(\d+)$", label or "")
+    if not m:
+        return None
+    p = os.path.join(run.work, "cases-%s.ndjson" % m.group(1))
+    try:
+        with open(p) as f:
+            for i, ln in enumerate(f):
+                if i == int(m.group(2)):
+                    c = json.loads(ln)
+                    c["k"] = i
+                    return c
+    except Exception:
+        return None
+    return None
+
+
 def finish(run, level_note_extra=None, rule=None, exhaustive=False, assumptions=None):
     """Classifies the failed predicates, prints KNOWN-FINDING / VIOLATION lines, writes evidence, exits."""
     known = load_known()
@@ -293,12 +311,21 @@ def finish(run, level_note_extra=None, rule=None, exhaustive=False, assumptions=
                 continue
             seen.add(sig)
             path = os.path.join(VERIF, "replays", re.sub(r"[^A-Za-z0-9_.-]", "_", sig) + ".ndjson")
+            if getattr(run, "replay_of", None):
+                # re-running a recorded case: keep the recording, point at it
+                print("VIOLATION property=%s replay=%s" % (run.prop, run.replay_of))
+                print("  failed predicate %s on %s (%s), case %s (reproduced on the current /repo)" % (f[1], f[2], f[3], f[5] if len(f) > 5 else ""))
+                continue
             try:
                 if len(f) > 6 and f[6] and os.path.exists(f[6]):
                     hist = extract_history(f[6], int(f[4]))
+                    hdr = {"ev": "replay-header", "property": run.prop, "predicate": f[1], "op": f[2],
+                           "cls": f[3], "case": f[5], "seed": run.seed, "tier": run.tier}
+                    mc = model_case(run, f[5])
+                    if mc is not None:
+                        hdr["model_case"] = mc
                     with open(path, "w") as o:
-                        o.write(json.dumps({"ev": "replay-header", "property": run.prop, "predicate": f[1], "op": f[2],
-                                            "cls": f[3], "case": f[5], "seed": run.seed, "tier": run.tier}) + "\n")
+                        o.write(json.dumps(hdr) + "\n")
                         o.writelines(hist)
                 else:
                     with open(path, "w") as o:
